@@ -84,6 +84,11 @@ def _strategy(tier):
         # a total power far below the noise floors (water level up to 1e15
         # times the power)
         pt_exp=st.sampled_from([0, 0, 0, 0, 0, -6, -9, -12]),
+        # very high SNR: the equal share of the power is 10^u times the
+        # LARGEST noise floor (all channels on, floors nearly negligible -
+        # but the allocation still follows them)
+        hsnr=st.one_of(st.none(), st.none(), st.none(), st.none(), st.none(),
+                       st.none(), st.none(), st.none(), fl(5.0, 9.5)),
         N0=loguniform(-3, 3),
         Es=es,
         # common absolute scale of gains and noise (the floors N0/(Es g)
@@ -179,7 +184,13 @@ def check(case, ctx):
         kk = max(1, n // 20)
         Pt = math.fsum(fs[kk] - fs[i] for i in range(kk)) * 1.001
         ctx.label("long_vector_mostly_off")
+    if case.get("hsnr") is not None and not case.get("long"):
+        Pt = n * max(N0 / (Es * gi) for gi in g) * 10.0 ** float(case["hsnr"])
+        ctx.label("very_high_snr(share=1e%d x worst floor)" %
+                  int(case["hsnr"]))
     sw = case.get("pt_switch")
+    if case.get("hsnr") is not None and not case.get("long"):
+        sw = None
     if sw and n >= 2:
         fl_sorted = sorted(N0 / (Es * gi) for gi in g)
         k = 1 + int(sw[0] * (n - 1) * 0.999999)
